@@ -1333,9 +1333,11 @@ def compile_match_expression(compiler, expr, root, subject, clauses):
             )
         )
 
+    # We don't give the Result any temp_variables, for the same reason
+    # as in `with`: the initial assignment would clobber the renamed-to
+    # variable before the subject is evaluated.
     returnable = Result(
         expr=asty.Name(expr, id=return_var.id, ctx=ast.Load()),
-        temp_variables=[return_var],
     )
     ret = Result() + subject
     ret += asty.Assign(
